@@ -104,8 +104,7 @@ std::vector<vfps::impedance_t> vfps::Impedance::readData(std::string fname)
     frequency_t real;
     frequency_t imag;
 
-    while(is.good()) {
-        is >> lineno >> real >> imag;
+    while(is >> lineno >> real >> imag) {
         if (lineno != old_lineno) {
             rv.push_back(impedance_t(real,imag));
         }
